@@ -66,3 +66,14 @@ def classify_c09(fragments, ctx, follower, want, got, ident, d=None):
     else:
         pw = predicted if want == true_den else want
     return 'KF-C09-QUOTE' if got == pw else None
+
+
+def classify_c12(how, ident, home_changed, target_exists, executed):
+    """KF-C12-ABS.  Predicate: the FILE-NAME of a destination (literal or the value of a string symbol it starts with) is an absolute path.
+    Defect model: the path is accepted and used as it is - the relativity root (given or default) is ignored - so the case PASSes and
+    the file / directory is created exactly at the absolute path."""
+    if not is_known('KF-C12-ABS'):
+        return None
+    if ident == 'PASS' and home_changed and target_exists:
+        return 'KF-C12-ABS'
+    return None
